@@ -17,9 +17,12 @@ import (
 	"math/rand/v2"
 	"net"
 	"net/http"
+	"net/url"
+	"os"
 	"strings"
 	"sync"
 	"sync/atomic"
+	"syscall"
 	"time"
 
 	"oras.land/oras-go/v2/registry/remote/retry"
@@ -33,7 +36,8 @@ const (
 
 // outcome is one scripted server behaviour.
 type outcome struct {
-	Kind       string `json:"kind"` // ok | 401basic | 401bearer | 401none | status | timeout | neterr | err | eof
+	Kind       string `json:"kind"` // ok | 401basic | 401bearer | 401none | status | timeout | fatal
+	Err        string `json:"err,omitempty"` // which error value (timeout / fatal)
 	Status     int    `json:"status,omitempty"`
 	RetryAfter string `json:"retry_after,omitempty"`
 	// ReadPermille: how much of the request body the "server" consumes before
@@ -43,6 +47,9 @@ type outcome struct {
 
 func (o outcome) String() string {
 	s := o.Kind
+	if o.Err != "" {
+		s += ":" + o.Err
+	}
 	if o.Kind == "status" {
 		s = fmt.Sprint(o.Status)
 		if o.RetryAfter != "" {
@@ -68,7 +75,7 @@ func (o outcome) retryable() bool {
 
 func (o outcome) isError() bool {
 	switch o.Kind {
-	case "timeout", "neterr", "err", "eof":
+	case "timeout", "fatal":
 		return true
 	}
 	return false
@@ -82,6 +89,70 @@ func (e *timeoutErr) Timeout() bool   { return true }
 func (e *timeoutErr) Temporary() bool { return true }
 
 var _ net.Error = (*timeoutErr)(nil)
+
+// Error values the scripted transport can fail with. The statement's
+// retryable failures are timeouts; every other transport error is final,
+// whatever it says about being "temporary".
+var (
+	// net.Error values reporting Timeout() (the last one only through errors.As)
+	timeoutVariants = []string{"net-timeout", "net-timeout", "url-timeout", "etimedout", "op-deadline", "wrapped-timeout"}
+	// everything else
+	fatalVariants = []string{"plain", "op-refused", "op-emfile-temporary", "dns-temporary", "dns-notfound", "url-dns-temporary",
+		"wrapped-dns-temporary", "emfile-temporary", "econnreset", "op-econnreset", "eof", "unexpected-eof", "wrapped-unexpected-eof", "url-plain", "addr-error"}
+)
+
+// timeoutIsNetError: the library sees the timeout through a plain type
+// assertion to net.Error (a %w-wrapped one is a timeout only via errors.As;
+// retrying it or not are both within the statement).
+func timeoutIsNetError(variant string) bool { return variant != "wrapped-timeout" }
+
+func mkErr(kind, variant string, n int) error {
+	if kind == "timeout" {
+		switch variant {
+		case "url-timeout":
+			return &url.Error{Op: "Put", URL: "http://" + targetHost + "/", Err: &timeoutErr{n}}
+		case "etimedout":
+			return &net.OpError{Op: "dial", Net: "tcp", Err: os.NewSyscallError("connect", syscall.ETIMEDOUT)}
+		case "op-deadline":
+			return &net.OpError{Op: "read", Net: "tcp", Err: os.ErrDeadlineExceeded}
+		case "wrapped-timeout":
+			return fmt.Errorf("scripted #%d: %w", n, &timeoutErr{n})
+		}
+		return &timeoutErr{n}
+	}
+	dnsTemp := &net.DNSError{Err: "server misbehaving", Name: targetHost, IsTemporary: true}
+	switch variant {
+	case "op-refused":
+		return &net.OpError{Op: "dial", Net: "tcp", Err: os.NewSyscallError("connect", syscall.ECONNREFUSED)}
+	case "op-emfile-temporary":
+		return &net.OpError{Op: "dial", Net: "tcp", Err: os.NewSyscallError("socket", syscall.EMFILE)}
+	case "dns-temporary":
+		return dnsTemp
+	case "dns-notfound":
+		return &net.DNSError{Err: "no such host", Name: targetHost, IsNotFound: true}
+	case "url-dns-temporary":
+		return &url.Error{Op: "Put", URL: "http://" + targetHost + "/", Err: dnsTemp}
+	case "wrapped-dns-temporary":
+		return fmt.Errorf("scripted #%d: %w", n, dnsTemp)
+	case "emfile-temporary":
+		return syscall.EMFILE
+	case "econnreset":
+		return syscall.ECONNRESET
+	case "op-econnreset":
+		return &net.OpError{Op: "read", Net: "tcp", Err: os.NewSyscallError("read", syscall.ECONNRESET)}
+	case "eof":
+		return io.EOF
+	case "unexpected-eof":
+		return io.ErrUnexpectedEOF
+	case "wrapped-unexpected-eof":
+		return fmt.Errorf("scripted #%d: %w", n, io.ErrUnexpectedEOF)
+	case "url-plain":
+		return &url.Error{Op: "Put", URL: "http://" + targetHost + "/", Err: fmt.Errorf("scripted transport failure #%d", n)}
+	case "addr-error":
+		return &net.AddrError{Err: "scripted bad address", Addr: targetHost}
+	}
+	return fmt.Errorf("scripted transport failure #%d", n)
+}
 
 // respBody is a response body that remembers what the client did to it.
 type respBody struct {
@@ -392,21 +463,12 @@ func (b *base) RoundTrip(req *http.Request) (*http.Response, error) {
 		return resp
 	}
 	switch out.Kind {
-	case "timeout":
+	case "timeout", "fatal":
 		rec.mu.Lock()
 		rec.nTimeout++
 		n := rec.nTimeout
 		rec.mu.Unlock()
-		a.err = &timeoutErr{n}
-		return nil, a.err
-	case "neterr":
-		a.err = &net.OpError{Op: "dial", Net: "tcp", Err: fmt.Errorf("scripted connection refused #%d", a.Seq)}
-		return nil, a.err
-	case "err":
-		a.err = fmt.Errorf("scripted transport failure #%d", a.Seq)
-		return nil, a.err
-	case "eof":
-		a.err = fmt.Errorf("scripted #%d: %w", a.Seq, io.ErrUnexpectedEOF)
+		a.err = mkErr(out.Kind, out.Err, n)
 		return nil, a.err
 	case "401basic":
 		return mk(401, http.Header{"Www-Authenticate": {`Basic realm="scripted"`}}, `{"errors":[{"code":"UNAUTHORIZED"}]}`), nil
